@@ -73,8 +73,8 @@ WIDE = (
 
 CORE = [
     F('d1', 'A', '1.9'), F('d1', 'A', '1.10'), F('d2', 'A', '1.10'), F('d1', 'A', '2'), F('d3', 'A', '2.0'),
-    F('d2', 'A', '2.0', 'B-1.9'), F('d2', 'A', '1.x'),
-    F('d1', 'B', '1.9', 'C-2.0'), F('d2', 'B', '1.9'), F('d2', 'B', '1.10'), F('d3', 'B', '1.9', 'C-2.0'),
+    F('d2', 'A', '2.0', 'B-1.9'),
+    F('d1', 'B', '1.9', 'C-2.0'), F('d2', 'B', '1.9'), F('d2', 'B', '1.10'),
     F('d1', 'C', '2.0'),
     F('d1', 'A', '2.0', inner='A-3.0'), F('d2', 'A', '2.0', inner='Z-2.0'),
 ]
@@ -391,7 +391,9 @@ class Model(object):
         return OK('loaded %s/%s-%s.typelib' % (d, ns, fver))
 
     def load_deps(self, deps, priv):
-        for dns, dver in deps:
+        # the order in which the dependencies are tried is not fixed (it only matters when one of
+        # them fails, see apply); the canonical choice is the reverse of the <include> order
+        for dns, dver in reversed(deps):
             de = self.loaded.get(dns)
             if priv is not None and (de is None or de.lazy) and any(f[0] == dns for f in self.cfg.bydir.get(priv, ())):
                 return UNSPEC('dependency of a privately required typelib also present in the private directory')
@@ -442,8 +444,10 @@ class Model(object):
         if o.kind == 'err':
             # what a failed dependency load leaves behind is not fixed: canonical choice = the
             # dependencies loaded so far stay; the requested namespace itself is not loaded
-            changed = frozenset(ns for ns in self.loaded if self.loaded[ns] != self.before.get(ns))
-            return Step(o, State(state.prepends, tuple(sorted(self.loaded.items()))), False, changed, ret)
+            mask = frozenset()
+            if o.codes is None:
+                mask = frozenset(ns for ns in NSS if ns != ret and (ns not in self.before or self.before[ns].lazy))
+            return Step(o, State(state.prepends, tuple(sorted(self.loaded.items()))), False, mask, ret)
         return Step(o, State(state.prepends, tuple(sorted(self.loaded.items()))), False, frozenset(), ret)
 
 
@@ -825,7 +829,8 @@ class Checker(object):
                 only_enum = all(d[0].endswith('.enumerate_versions') for d in diffs)
                 f, e, g, cls = diffs[0] if only_enum else [d for d in diffs if not d[0].endswith('.enumerate_versions')][0]
                 es, gs = short(self.root, e), short(self.root, g)
-                self.violation(hist, i, 'query|%s' % cls if only_enum else 'lazy|%s' % cls if lazy else
+                self.violation(hist, i, 'query|%s' % cls if only_enum else
+                               'lazy|reported state is not that of the loaded files' if lazy else
                                'state|%s|%s|%s' % (oc, rc, cls),
                                'after %s (%s): %s expected %s, observed %s' % (op_text(op), o.reason, f, es, gs), es, gs)
                 # a divergence confined to enumerate_versions leaves model and implementation in
